@@ -9,6 +9,9 @@ import PallasVerif.Model.Flat
     d.bool | d.u8 | d.bits n | d.word | d.int | d.char | d.bytes | d.utf8 | d.bools | d.string | d.filler
                                    -> `ok <value> <pos> <used>` | `err <class> <pos> <used>` | `panic`
     d.end                          -> `ok <pos> <used> <len>`
+    t.rt <kind> <value>            -> `flat::encode` then `flat::decode`: `ok <bytes> <decoded value>`
+    t.dec <kind> <hex>             -> `flat::decode::<T>`: `ok <value>` | `err <class>` | `panic`
+                                      (kinds: bool u8 word int char bytes utf8)
     After a `panic` every further op of the case answers `dead`. -/
 namespace PallasVerif.Streams.Flat
 open PallasVerif PallasVerif.Flat
@@ -101,6 +104,57 @@ def stepDec (st : St) (d : Dec) : List String → St × String
   | ["d.end"] => (st, "ok " ++ toString d.pos ++ " " ++ toString d.used ++ " " ++ toString d.buf.length)
   | _ => (st, "bad-op")
 
+def showValue : Value → String
+  | .bool b => Tok.showBool b
+  | .u8 x => toString x.toNat
+  | .bits _ x => toString x.toNat
+  | .word w => toString w
+  | .int i => toString i
+  | .char c => toString c
+  | .bytes bs => hexB bs
+  | .utf8 bs => hexB bs
+  | .bools l => showBools l
+  | .string cs => Tok.showList toString cs
+
+def topValue? (kind val : String) : Option Value :=
+  match kind with
+  | "bool" => (Tok.bool? val).map .bool
+  | "u8" => (byte? val).map .u8
+  | "word" => (Tok.nat? val).map .word
+  | "int" => (Tok.int? val).map .int
+  | "char" => (Tok.nat? val).map .char
+  | "bytes" => (Tok.unhex val).map fun b => .bytes (toBytes b)
+  | "utf8" => (Tok.unhex val).map fun b => .utf8 (toBytes b)
+  | _ => none
+
+def topKind? : String → Option Kind
+  | "bool" => some .bool | "u8" => some .u8 | "word" => some .word | "int" => some .int
+  | "char" => some .char | "bytes" => some .bytes | "utf8" => some .utf8 | _ => none
+
+def topReply (r : Res Value) : String :=
+  match r with
+  | .ok v _ => "ok " ++ showValue v
+  | .err e _ => "err " ++ showErr e
+  | .panic => "panic"
+
+def stepTop (st : St) : List String → St × String
+  | ["t.rt", kind, val] =>
+    match topValue? kind val with
+    | none => (st, "bad-op")
+    | some v =>
+      match encodeTop v with
+      | none => (st, "panic")
+      | some bytes =>
+        match decodeTop v.kind bytes with
+        | .ok v' _ => (st, "ok " ++ hexB bytes ++ " " ++ showValue v')
+        | .err e _ => (st, "ok " ++ hexB bytes ++ " err " ++ showErr e)
+        | .panic => (st, "panic")
+  | ["t.dec", kind, h] =>
+    match topKind? kind, Tok.unhex h with
+    | some k, some bs => (st, topReply (decodeTop k (toBytes bs)))
+    | _, _ => (st, "bad-op")
+  | _ => (st, "bad-op")
+
 def step (st : St) (toks : List String) : St × String :=
   if st.dead then (st, "dead") else
   match toks with
@@ -112,7 +166,8 @@ def step (st : St) (toks : List String) : St × String :=
     | some bs => ({ st with dec := some (Dec.new (toBytes bs)) }, "ok " ++ toString bs.length)
     | none => (st, "bad-op")
   | op :: _ =>
-    if op.startsWith "e." then stepEnc st toks
+    if op.startsWith "t." then stepTop st toks
+    else if op.startsWith "e." then stepEnc st toks
     else match st.dec with
       | some d => stepDec st d toks
       | none => (st, "bad-op")
